@@ -174,7 +174,10 @@ class FnGen:
         elif kind == "cond":
             ft, ff = d(st.sampled_from(sorted(self.cfg["cond_pairs"])))
             sig = self.plain[ft]
-            self.body.append(["cond", a, self.pred(), ft, ff, [self.scalar() for _ in range(sig["np"])]])
+            stmt = ["cond", a, self.pred(), ft, ff, [self.scalar() for _ in range(sig["np"])]]
+            if sig["kw"]:
+                stmt.append({k: self.scalar(0) for k in sig["kw"]})  # keyword arguments forwarded to both branches
+            self.body.append(stmt)
             self.vars.append((["v", a], "f"))
             self.n_sites += sig["sites"]
 
@@ -217,8 +220,8 @@ def programs(draw, discrete=False, max_sites=14, combinators=("call", "vmap", "s
         fns[name], plain[name] = fn, {"np": fn["np"], "kw": fn["kw"], "sites": sites}
         order.append(name)
     if "cond" in combinators:
-        base = draw(st.sampled_from([n for n in order if not fns[n]["kw"]] or order[:1]))
-        if not fns[base]["kw"]:
+        base = draw(st.sampled_from(order))
+        if True:
             alt = base + "x"
             fns[alt] = _perturb_fn(draw, fns[base])
             plain[alt] = dict(plain[base])
@@ -238,7 +241,17 @@ def programs(draw, discrete=False, max_sites=14, combinators=("call", "vmap", "s
         order.append("M0")
     n_main = draw(st.integers(1, 3 if discrete else 4))
     g = FnGen(draw, cfg, dict(plain), steps, False, draw(st.integers(1, 2)), ("t",) if kwargs and draw(st.integers(0, 3)) == 0 else ())
-    if force and force in avail:
+    if force == "indicator" and cfg["cond_pairs"]:
+        # mixture-indicator shape: a discrete choice decides which branch of a Cond is taken
+        a = g.addr()
+        g.body.append(["draw", a, "flip", [["prob", g.scalar(0)]]])
+        g.vars.append((["v", a], "b"))
+        ft, ff = draw(st.sampled_from(sorted(cfg["cond_pairs"])))
+        c = g.addr()
+        g.body.append(["cond", c, ["v", a], ft, ff, [g.scalar() for _ in range(plain[ft]["np"])]] + ([{k: g.scalar(0) for k in plain[ft]["kw"]}] if plain[ft]["kw"] else []))
+        g.vars.append((["v", c], "f"))
+        g.n_sites += 1 + plain[ft]["sites"]
+    elif force and force in avail:
         g.stmt([force])
     for _ in range(n_main):
         g.stmt(["draw", "draw"] + avail)
@@ -303,8 +316,9 @@ def n_leaf_sites(prog):
 # ---------------------------------------------------------------------------
 
 
-def build(prog):
-    """-> genjax generative function for prog['main'] (closures over the IR; deterministic glue via refmodel.ev)."""
+def build(prog, all_fns=False):
+    """-> genjax generative function for prog['main'] (closures over the IR; deterministic glue via refmodel.ev).
+    all_fns=True returns the dict of all built functions (for top-level combinator traces)."""
     import jax.numpy as jnp
     import genjax
     from genjax import Cond, Scan, const, gen
@@ -346,10 +360,11 @@ def build(prog):
                     _, _, f, L, init, xs = s
                     env["v"][addr] = Scan(built[f], length=const(L))(refmodel.ev(init, env, jnp), refmodel.ev(xs, env, jnp)) @ addr
                 elif kind == "cond":
-                    _, _, pred, ft, ff, aex = s
+                    pred, ft, ff, aex = s[2:6]
                     a = [refmodel.ev(e, env, jnp) for e in aex]
+                    ckw = {k: refmodel.ev(e, env, jnp) for k, e in s[6].items()} if len(s) > 6 else {}
                     p = jnp.asarray(refmodel.ev(pred, env, jnp), dtype=bool)
-                    env["v"][addr] = Cond(built[ft], built[ff])(p, *a) @ addr
+                    env["v"][addr] = Cond(built[ft], built[ff])(p, *a, **ckw) @ addr
             return refmodel.ev(fn["ret"], env, jnp)
 
         body.__name__ = name
@@ -357,6 +372,8 @@ def build(prog):
 
     for name in prog["order"]:
         built[name] = mk(name)
+    if all_fns:
+        return built
     return built[prog["main"]]
 
 
